@@ -209,30 +209,31 @@ Theorem C09_order_nonterminals_enumerates :
 Proof. exact order_model_enumerates. Qed.
 Print Assumptions C09_order_nonterminals_enumerates.
 
-(** Finding F2: ViterbiSemiring.star as coded ([tstar_code]: inf for x >= 0).  The faithful
-    model still returns a solution ... *)
-Theorem C09_viterbi_code_star_solution :
+(** Finding F2 (repaired in /repo commit d2ec7af): ViterbiSemiring.star as it WAS coded
+    ([tstar_code]: inf for x >= 0; the current code is [tstar]).  The model run with the former
+    star still returns a solution ... *)
+Theorem C09_F2_former_star_solution :
   sr_ring trop_ops ->
   forall n A b, sol_spec trop_ops n A b (get1 trop_ops (solve_model trop_code_ops n A b)).
 Proof. exact viterbi_code_star_solution. Qed.
-Print Assumptions C09_viterbi_code_star_solution.
+Print Assumptions C09_F2_former_star_solution.
 
 (** ... which is not the least one: x = max(0 + x, -1) is answered +inf *)
-Theorem C09_viterbi_least_refuted :
+Theorem C09_F2_former_star_refuted :
   presol_spec trop_ops 1 f2_A f2_b (get1 trop_ops f2_b) /\
   ~ (forall i, i < 1 -> tle (get1 trop_ops (solve_model trop_code_ops 1 f2_A f2_b) i) (get1 trop_ops f2_b i)).
 Proof. exact viterbi_code_star_not_least. Qed.
-Print Assumptions C09_viterbi_least_refuted.
+Print Assumptions C09_F2_former_star_refuted.
 
 (** ... and is the least one under the guard "no pivot met by the loop is exactly 0" *)
-Theorem C09_viterbi_least_guarded :
+Theorem C09_F2_former_star_guarded :
   sr_ring trop_ops -> sr_ordered trop_ops -> sr_star trop_ops ->
   forall n A b, no_zero_pivot n A = true ->
     (forall i, i < n -> get1 trop_ops (solve_model trop_code_ops n A b) i
                         = get1 trop_ops (solve_model trop_ops n A b) i)
     /\ least_spec trop_ops n A b (get1 trop_ops (solve_model trop_code_ops n A b)).
 Proof. exact viterbi_code_star_guarded. Qed.
-Print Assumptions C09_viterbi_least_guarded.
+Print Assumptions C09_F2_former_star_guarded.
 
 (** the decision procedures handed to the oracles are sound for the three carriers *)
 Theorem C09_carrier_decisions :
